@@ -583,7 +583,7 @@ def precession_equatorial(
     if start_dec > 85.0:  # Coordinates are close to the pole
         final_dec = acos(sqrt(a * a + b * b))
     else:
-        final_dec = asin(c)
+        final_dec = _asin(c)
     # Convert results to Angles. Please note results are in radians
     final_ra = Angle(final_ra, radians=True)
     final_dec = Angle(final_dec, radians=True)
@@ -679,7 +679,7 @@ def precession_ecliptical(
         start_lat.rad()
     ) * sin(pie.rad() - start_lon.rad())
     final_lon = p.rad() + pie.rad() - atan2(a, b)
-    final_lat = asin(c)
+    final_lat = _asin(c)
     # Convert results to Angles. Please note results are in radians
     final_lon = Angle(final_lon, radians=True)
     final_lat = Angle(final_lat, radians=True)
@@ -818,7 +818,7 @@ def precession_newcomb(
     if start_dec > 85.0:  # Coordinates are close to the pole
         final_dec = acos(sqrt(a * a + b * b))
     else:
-        final_dec = asin(c)
+        final_dec = _asin(c)
     # Convert results to Angles. Please note results are in radians
     final_ra = Angle(final_ra, radians=True)
     final_dec = Angle(final_dec, radians=True)
